@@ -12,7 +12,7 @@ import re
 
 from sa import api, ioseq, sym
 from sa.facts import Program, walk, calls_in
-from sa.symexec import Hooks, run_function, flat
+from sa.symexec import Hooks, run_function, flat, paths
 from sa.sym import ZERO
 
 
@@ -168,26 +168,56 @@ def run(chk):
             calls = [x for x in seq if x["e"] == "call"]
             names = [x["name"] for x in calls]
             key = "%s::fread does not accept a short read silently" % f.record
-            cfread = [x for x in calls if x["name"] in ("fread", "std::fread")]
-            if cfread:
-                ret = cfread[0]["ret"]
-                want = ex.env.get(f.params[1]["id"])
-                ok, detail = False, "the count returned by fread is not compared with the request"
-                for x in seq:
-                    if x["e"] == "if" and x["cond"][0] == "op" and x["cond"][1] in ("!=", "==", "<"):
-                        a, b = x["cond"][2], x["cond"][3]
-                        if {a, b} == {ret, want}:
-                            fatal = (x.get("else_status") == "exit") if x["cond"][1] == "==" else (x.get("then_status") == "exit")
-                            ok = fatal
-                            detail = "count %s request at line %s, mismatch %s" % (
-                                x["cond"][1], x["l"], "is fatal" if fatal else "returns to the caller")
-                chk.require(ok, "R3", key, where=f.where, ok=detail, bad=detail, variant=vn)
-            elif any("basic_istream" in n and n.endswith("::read") for n in names):
-                chk.proved("R3", key, where=f.where,
-                           detail="delegates to std::istream::read, which sets failbit|eofbit on a short read", variant=vn)
-            else:
-                chk.refuted("R3", key, where=f.where, detail="neither fread-with-count-check nor istream::read: %s" % names,
-                            variant=vn)
+            data = ex.env.get(f.params[0]["id"])
+            want = ex.env.get(f.params[1]["id"])
+            problems, accepted, npaths = [], set(), 0
+            for leaves, conds, status in paths(eff):
+                if status == "exit":
+                    continue
+                npaths += 1
+                filled = None
+                for x in leaves:
+                    if x["e"] != "call" or not any(sym.contains(a, data) for a in x.get("args", [])):
+                        continue
+                    nm = x["name"]
+                    if "basic_istream" in nm and nm.endswith("::read") and list(x["args"]) == [data, want]:
+                        # [istream.unformatted]: read() calls setstate(failbit|eofbit) when fewer than n characters are stored
+                        filled = "std::istream::read(data, bytes) at line %s" % x["l"]
+                    else:
+                        # a count-returning read: on this (normally returning) path the count must equal the request
+                        full = None
+                        if nm in ("fread", "std::fread") and len(x["args"]) == 4 and x["args"][0] == data and \
+                                sym.mul(x["args"][1], x["args"][2]) == want:
+                            full = want if x["args"][1] == ("int", 1) else x["args"][2]
+                        elif re.search(r"basic_streambuf<.*>::sgetn$|basic_istream<.*>::readsome$", nm) and \
+                                list(x["args"]) == [data, want]:
+                            full = want
+                        ok = False
+                        for c, pol, line in conds:
+                            if full is None or c[0] != "op":
+                                continue
+                            if c[1] in ("!=", "==") and {c[2], c[3]} == {x["ret"], full}:
+                                ok = ok or (pol is (c[1] == "=="))
+                            if c[1] == "<" and c[2] == x["ret"] and c[3] == full:
+                                ok = ok or (pol is False)
+                        if ok:
+                            filled = "%s at line %s with the count compared on this path" % (nm, x["l"])
+                        elif full is not None:
+                            problems.append("returns normally after %s at line %s without the returned count being equal "
+                                            "to the request on that path" % (nm, x["l"]))
+                        else:
+                            problems.append("a path fills the buffer through %s at line %s, which reports a short read "
+                                            "neither by a stream failure nor by a count" % (nm, x["l"]))
+                if filled is None and not problems:
+                    problems.append("a normally returning path (conditions %s) performs no read at all" % (
+                        ", ".join("%s%s" % ("" if pol else "!", sym.show(c)) for c, pol, _ in conds) or "none"))
+                elif filled:
+                    accepted.add(filled)
+            if npaths == 0:
+                chk.broken("%s::fread has no normally returning path" % f.record)
+            chk.require(not problems, "R3", key, where=f.where,
+                        ok="%d returning path(s), each through %s" % (npaths, "; ".join(sorted(accepted))),
+                        bad="; ".join(sorted(set(problems))[:3]), variant=vn)
         # nothing reachable from the import API clears stream state or catches exceptions
         pubs = api.public_functions(v)
         entry = [u for u, f in pubs.items() if api.IO_IMPORT.match(f.name)]
@@ -201,7 +231,7 @@ def run(chk):
                 continue
             for c in calls_in(f.d.get("body")):
                 nm = c.get("callee", "")
-                if nm in ("clearerr", "std::clearerr") or re.search(r"(basic_ios|ios_base|basic_istream)<?.*::(clear|setstate|exceptions)$", nm):
+                if nm in ("clearerr", "std::clearerr") or re.search(r"(basic_ios|ios_base|basic_istream)<?.*::(clear|exceptions)$", nm):
                     bad.append("%s calls %s at line %s" % (f.q, nm, c["l"]))
             for n in walk(f.d.get("body")):
                 if n.get("k") == "try":
